@@ -37,10 +37,16 @@ pub static SCENARIOS: &[ScenarioDef] = &[
 pub struct SendHandle(pub LocalHandle);
 unsafe impl Send for SendHandle {}
 
+/// A guard obtained in one phase and dropped in a later one (the participant is not tied to the
+/// OS thread that runs the phase).
+pub struct SendGuard(pub Guard);
+unsafe impl Send for SendGuard {}
+
 pub struct EWorld {
     pub collector: Collector,
     pub handles: [Slot<SendHandle>; 8],
-    pub queue: VQueue<u64>,
+    pub parked: Slot<SendGuard>,
+    pub queue: VQueue<QItem>,
     pub list: VList,
     pub elems: [Slot<VElemRef>; 8],
 }
@@ -52,6 +58,7 @@ impl EWorld {
         Arc::new(EWorld {
             collector,
             handles: Default::default(),
+            parked: Default::default(),
             queue: VQueue::new(),
             list: VList::new(),
             elems: Default::default(),
@@ -217,6 +224,7 @@ fn ebase(p: &Params, classes: u8) -> Program {
 /// references to the collector go away.
 fn survivor(ew: &Arc<EWorld>, max: usize, rounds_before_check: bool) -> Body {
     ebody(ew, move |c, ew| {
+        drop(ew.parked.try_take());
         if rounds_before_check {
             let h = ew.collector.register();
             let mut k = 0;
@@ -302,6 +310,9 @@ fn sections(p: &Params) -> Program {
         })
     };
     let mut nhandles = 3;
+    let mut stale_participant = false;
+    let mut lagging_participant = false;
+    let bag_cap = p.get("bag", 64) as usize;
     let threads: Vec<Body> = match prog {
         // 1. reader vs deferrer
         0 => vec![reader(0, 1), deferrer(1, 4)],
@@ -391,6 +402,40 @@ fn sections(p: &Params) -> Program {
             }),
             advancer(2, 2),
         ],
+        // 10. (C14) the registry holds an unlinked-to-be participant and the collecting thread's
+        //     bag is full: the traversal inside try_advance() defers the participant's
+        //     destruction, which pushes the bag and re-pins the advancer between its read of the
+        //     global epoch and its store (run with bag=2)
+        9 => {
+            stale_participant = true;
+            vec![
+                ebody(&ew, move |c, ew| {
+                    let h = take(0)(ew);
+                    let g = c.pin(&h);
+                    c.flush(&g);
+                    for _ in 0..bag_cap {
+                        c.defer(&g);
+                    }
+                    c.unpin(g);
+                    drop(h);
+                }),
+                advancer(1, 1),
+                advancer(2, 1),
+            ]
+        }
+        // 11. (C18) a participant pinned one epoch behind sits at the end of the registry, behind
+        //     an exited participant that is still linked; the advancer's traversal stalls when
+        //     the entry it has just passed is deleted as well. A stalled traversal has not seen
+        //     the lagging participant: the epoch must stay.
+        10 => {
+            lagging_participant = true;
+            vec![
+                advancer(0, 1),
+                ebody(&ew, move |_, ew| {
+                    drop(take(1)(ew));
+                }),
+            ]
+        }
         // 8. the handle is dropped while a guard is alive: unregistration happens at unpin
         _ => vec![
             ebody(&ew, move |c, ew| {
@@ -409,8 +454,38 @@ fn sections(p: &Params) -> Program {
         e0,
         setup: Some(ebody(&ew, move |_, ew| {
             ew.attach(e0);
-            for i in 0..nhandles {
-                ew.handles[i].put(SendHandle(ew.collector.register()));
+            if lagging_participant {
+                // registry order (newest first): thread 0, thread 1, the exited participant, the
+                // lagging one
+                let lag = ew.collector.register();
+                let g = lag.pin();
+                let exited = ew.collector.register();
+                ew.handles[1].put(SendHandle(ew.collector.register()));
+                let h0 = ew.collector.register();
+                {
+                    // everybody is registered and nobody has left yet: this traversal unlinks
+                    // nothing, and it leaves the pinned participant one epoch behind
+                    let g0 = h0.pin();
+                    cv::ebr::try_advance(&ew.collector, &g0);
+                }
+                ew.handles[0].put(SendHandle(h0));
+                drop(exited);
+                ew.parked.put(SendGuard(g));
+                ew.handles[2].put(SendHandle(lag));
+            } else if stale_participant {
+                // registry order (newest first): thread 0, the stale participant, the others. A
+                // traversal by thread 0 passes its own entry before it meets the stale one, which
+                // is marked deleted when its handle goes away and unlinked by whoever comes next.
+                for i in 1..nhandles {
+                    ew.handles[i].put(SendHandle(ew.collector.register()));
+                }
+                let stale = ew.collector.register();
+                ew.handles[0].put(SendHandle(ew.collector.register()));
+                drop(stale);
+            } else {
+                for i in 0..nhandles {
+                    ew.handles[i].put(SendHandle(ew.collector.register()));
+                }
             }
         })),
         threads,
@@ -977,6 +1052,28 @@ fn guards(p: &Params) -> Program {
 
 // ------------------------------------------------------------------------------------ C17
 
+/// Queue element with a destructor: the queue hands every pushed element to exactly one consumer
+/// and never destroys (or duplicates) one itself.
+pub struct QItem(pub u64);
+
+impl Drop for QItem {
+    fn drop(&mut self) {
+        if let Some(m) = crate::monitor::try_mon() {
+            let v = self.0;
+            let n = {
+                let e = m.ebr.q_drops.entry(v).or_insert(0);
+                *e += 1;
+                *e
+            };
+            if m.ebr.q_dropping != Some(v) {
+                m.violate("C17", "element-destroyed-by-queue", format!("element {} was destroyed inside a queue operation: only the consumer that received it may destroy it", v));
+            } else if n > 1 {
+                m.violate("C17", "element-destroyed-twice", format!("element {} was destroyed {} times", v, n));
+            }
+        }
+    }
+}
+
 fn q_step(state: &VecDeque<i64>, op: &OpRec) -> Option<VecDeque<i64>> {
     let pred = |which: i64, v: i64| match which {
         1 => v % 2 == 0,
@@ -1103,7 +1200,7 @@ fn queue_program(p: &Params, e0: usize, init: Vec<u64>, progs: Vec<Vec<QOp>>) ->
         match op {
             Push(v) => {
                 let i = mon().op_begin(c.t, "qpush", [0, v as i64, 0, 0]);
-                ew.queue.push(v, &g);
+                ew.queue.push(QItem(v), &g);
                 mon().op_end(i, [0; 4]);
             }
             Pop | PopEven | PopSmall => {
@@ -1115,10 +1212,16 @@ fn queue_program(p: &Params, e0: usize, init: Vec<u64>, progs: Vec<Vec<QOp>>) ->
                 let i = mon().op_begin(c.t, "qpop", [0, which, 0, 0]);
                 let r = match op {
                     Pop => ew.queue.try_pop(&g),
-                    PopEven => ew.queue.try_pop_if(|v| v % 2 == 0, &g),
-                    _ => ew.queue.try_pop_if(|v| *v < 2, &g),
+                    PopEven => ew.queue.try_pop_if(|v| v.0 % 2 == 0, &g),
+                    _ => ew.queue.try_pop_if(|v| v.0 < 2, &g),
                 };
-                mon().op_end(i, [r.is_some() as i64, r.unwrap_or(0) as i64, 0, 0]);
+                mon().op_end(i, [r.is_some() as i64, r.as_ref().map(|x| x.0).unwrap_or(0) as i64, 0, 0]);
+                if let Some(item) = r {
+                    // the consumer owns what it received
+                    mon().ebr.q_dropping = Some(item.0);
+                    drop(item);
+                    mon().ebr.q_dropping = None;
+                }
             }
         }
         drop(g);
